@@ -996,6 +996,27 @@ def analyse_sessions(spec, hists, open_known, tag):
                                          why=j[1] + ' (and the implementation no longer behaves like the Lean model' + (f'; inside class {cls} but not with the recorded behaviour' if cls != '-' else '') + ')'))
                 else:
                     mismatch.append(dict(history=h, at=i, impl=x, model=model))
+                    # look-ahead: the concrete states differ but while the ABSTRACT trees of implementation and model still agree the
+                    # specification column of the following calls (computed from the abstract pre-state) is valid for the implementation
+                    # too, so the property predicate can still be evaluated on it (finds e.g. a wrong stored relative link target at the
+                    # later readlink). Only unclassified failures are reported; this can only turn a correspondence break into a replay.
+                    try:
+                        if judging and abs_of_dump(x) == abs_of_dump(model):
+                            pv = x
+                            for i2 in range(i + 1, min(len(h), len(a), len(b))):
+                                r2, x2, f2 = h[i2], a[i2], b[i2].split('\t')
+                                j2 = spec['judge'](r2, x2, f2, pv, hi, i2) if spec.get('judge_ctx') else spec['judge'](r2, x2, f2, pv)
+                                c2 = f2[2] if len(f2) > 2 else '-'
+                                if j2:
+                                    if c2 == '-' and not (len(j2) > 2 and j2[2]):
+                                        new_fail.append(dict(history=h, at=i2, impl=x2, spec=j2[0], cls='-',
+                                                             why=j2[1] + f' (the implementation stopped behaving like the Lean model at step {i}; abstract trees still agreed)'))
+                                    break
+                                if ' ## ' not in x2 or abs_of_dump(x2) != abs_of_dump(f2[0]):
+                                    break
+                                pv = x2
+                    except Exception:
+                        pass
                 break
             if c == 'dead':
                 if 'LinkLooping' in xo:
